@@ -77,6 +77,10 @@ SENSITIVITY = {
     "r11b": ("seeded/r11b/patch.diff", "C17", ["result-mismatch", "answers-differ-between-processes", "process-history-dependence", "entry-point-mismatch", "reference-unstable"], "C (simulated clock) / B (Miri virtual clock): evaluation kernel re-tuned once per second from timings"),
     "r11c": ("seeded/r11c/patch.diff", "C18", ["wrong-target", "query-element-not-delivered", "callback-invariant", "error-swallowed"], "A: large batches evaluated on library worker threads, chunk starts off when rows % 4 != 0"),
     "r11d": ("seeded/r11d/patch.diff", "C18", ["callback-invariant"], "A: strategy calls get_index_left_of on an out-of-range query, then is_in_range between the axis end and that query"),
+    "r12a": ("seeded/r12a/patch.diff", "C17", ["result-mismatch", "entry-point-mismatch"], "A (Yf seam) / B: periodic fold skipped on the slot-busy path; atomics imported from core::, invisible to the std facade"),
+    "r12b": ("seeded/r12b/patch.diff", "C17", ["result-mismatch", "entry-point-mismatch"], "A: element-operation panic while the Linear cursor's slope row is refilled; Drop guard parks it with the old label"),
+    "r12c": ("seeded/r12c/patch.diff", "C18", ["build-invariant", "build-invoked-on-invalid-input"], "A: builder decision table on long axes (block seams at 64/65, 129/130 ...)"),
+    "r12d": ("seeded/r12d/patch.diff", "C18", ["callback-invariant", "concurrent-operation-affected", "wrong-target"], "C / B: per-axis one-entry memo filled in a second critical section without re-checking the key"),
     "M16": ("mutants/M16.diff", "C17", ["answers-differ-between-processes", "process-history-dependence"], "A: evaluation order picked once per process from the hasher's random seed"),
 }
 # seeded/r7d is kept but not listed: its author reads C18 as forbidding one-point axes for strategies
@@ -90,6 +94,7 @@ BENIGN = {
     "B4": ("mutants/B4.diff", "general path accepts strided buffers (layout-agnostic sub-view)"),
     "B5": ("mutants/B5.diff", "different wording of the out-of-range error"),
     "B7": ("mutants/B7.diff", "a CORRECT parallel evaluation of large batches on library worker threads (seeded change r11c with its chunk arithmetic repaired; adds Self: Sync bounds to interp_array*)"),
+    "B8": ("mutants/B8.diff", "process-wide usage statistics in a static atomic and a static Mutex<BTreeMap> (statics that live across engine-C iterations)"),
     "B6": ("mutants/B6.diff", "a mutex held for the whole batch: blocks under the baton, the watchdog releases the run (lost_control), answers unchanged"),
 }
 
